@@ -329,6 +329,21 @@ func runCheck(p *PropDef, tier string, seed int64) int {
 	for _, r := range results {
 		all = append(all, r.Obls...)
 	}
+	// assumed (trusted) contracts of called functions are only valid for the code they were written for
+	stale := map[string]bool{}
+	for _, r := range results {
+		for _, ck := range r.Called {
+			cfi := w.Funcs[ck]
+			if cfi == nil || cfi.Contract == nil || !cfi.Contract.Trusted || stale[ck] {
+				continue
+			}
+			if pin := funcPin(w, cfi); cfi.Contract.Pin != pin {
+				stale[ck] = true
+				all = append(all, presetObligation(ck+"#trusted:stale", ck, w.pos(cfi.Decl.Pos()),
+					fmt.Sprintf("the assumed contract of %s was written for another version of the function (pin %s, now %s): it is no longer known to hold", shortName(ck), cfi.Contract.Pin, pin), "stale-assumption"))
+			}
+		}
+	}
 	// 2. special obligation sources
 	var extra *extraResult
 	if p.Ordind {
